@@ -850,8 +850,9 @@ func emitBlock(w *World, out *Out, hi int, txs []*histTx, dt time.Duration, stat
 		rec = J{"pre": append([]J{}, curPre...), "txs": rtx, "dtNanos": int64(dt)}
 	}
 	curPre = nil
+	distrPre := w.observeDistr() // what the begin-block fee allocation of this block starts from (after the edits between blocks)
 	res := w.Block(dt, reqs)
-	line := J{"t": "hist.step", "id": hi, "h": res.Height, "dt": int64(dt / time.Second)}
+	line := J{"t": "hist.step", "id": hi, "h": res.Height, "dt": int64(dt / time.Second), "distrPre": distrPre}
 	if rec != nil {
 		line["rec"] = rec
 	}
@@ -900,6 +901,28 @@ func emitBlock(w *World, out *Out, hi int, txs []*histTx, dt time.Duration, stat
 			endEv = append(endEv, ev)
 		}
 	}
+	// x/distribution's own "rewards" events of begin-block: what the fee allocation gave each fee-sharing validator (raw 18-decimal amounts)
+	br := [][]string{}
+	for _, e := range beginEv {
+		if e.Type != "rewards" {
+			continue
+		}
+		var val, amt string
+		for _, a := range e.Attributes {
+			switch a.Key {
+			case "validator":
+				val = a.Value
+			case "amount":
+				amt = a.Value
+			}
+		}
+		if dcs, err := sdk.ParseDecCoins(amt); err == nil {
+			for _, c := range dcs {
+				br = append(br, []string{val, c.Denom, decRaw(c.Amount)})
+			}
+		}
+	}
+	line["beginRewards"] = br
 	line["beginMoves"] = bankMoves(beginEv)
 	line["endMoves"] = bankMoves(endEv)
 	line["txs"] = jt
